@@ -92,6 +92,30 @@ def codec_cases(rng, tier):
     return cases
 
 
+def valget_cases(rng, tier):
+    """CFG-VALGET responses: configuration key/value pairs indexed in payload order (1..64 pairs, all sizes)."""
+    from .. import cfggen as K
+    from .. import reflect
+    kt = reflect.key_tables()
+    sk = ','.join(str(k) for k in kt['signed']) or '-'
+    cases = []
+    for n in [0, 1, 2, 3, 10, 63, 64, 64] + [rng.randrange(1, 65) for _ in range(6 if tier == 'quick' else 300)]:
+        body = b''
+        for j in range(n):
+            size = rng.randrange(1, 6)
+            key = (size << 28) | (rng.randrange(256) << 16) | rng.choice([0, 1, 0x3FF, 0x400, 0x7FF, 0x800, 0xFFF, rng.randrange(4096)])
+            if rng.random() < 0.3:
+                key = rng.choice(sorted(kt['consts'].values()))
+                size = (key >> 28) & 7
+            w = {1: 1, 2: 1, 3: 2, 4: 4, 5: 8}[size]
+            val = bytes([rng.choice([0, 1])]) if size == 1 else bytes(rng.getrandbits(8) for _ in range(w))
+            body += key.to_bytes(4, 'little') + val
+        data = bytes([rng.choice([0, 1]), rng.choice([0, 1, 2, 7]), 0, 0]) + body
+        impl = C.guarded(K.impl_valget, data, len(cases) % 2 == 0)
+        cases.append(Case('valget-decode', f'valget {sk} {C.hexs(data)}', impl.rstrip(), {'message': 'UbxCfgValGet', 'pairs': n, 'payload_hex': C.hexs(data)}, kind=f'valget/{n if n < 3 else "n"}'))
+    return cases
+
+
 def check(tier, seed):
     res = C.Result('C07', tier, seed)
     res.rule = ('every message class x well-formed payloads (random, all-ones, zero, sign-bit patterns, walking bytes; all '
@@ -116,7 +140,7 @@ def check(tier, seed):
                 mt = R.message_table()
             except Exception:
                 mt = {}
-        cases = message_cases(res, rng, mt, tier) + codec_cases(rng, tier)
+        cases = message_cases(res, rng, mt, tier) + codec_cases(rng, tier) + valget_cases(rng, tier)
         res.compare(cases)
         res.exhaustive = tier == 'thorough'
         res.oblige('correspondence construct()/Item.unpack vs model and oracle (Tie A)', not res.disagreements)
